@@ -104,6 +104,9 @@ func H_C05_set_typedef_chain_minmax(s any) {
 	ok2, _, _, _ := c05Set(m, "c3x", val.Int32(x))
 	vpAssert(ok2 == vpAnd(x >= 15, x <= 50), "10..100 / min..50 / 15..max accepts exactly 15..50")
 	str := vpString(7)
+	for i := 0; i < len(str); i++ {
+		vpAssume(str[i] < 0x80) // characters = bytes here; multi-byte characters are in H_C05_length_bounds
+	}
 	ok3, _, _, _ := c05Set(m, "sl3", val.String(str))
 	vpAssert(ok3 == (len(str) >= 2 && len(str) <= 3), "length 2..6 / min..4 / min..3 accepts exactly 2..3")
 	vpCover("reached")
@@ -153,6 +156,9 @@ func H_C05_set_uint(s any) {
 func H_C05_set_string_length(s any) {
 	m := s.(*meta.Module)
 	x := vpString(5)
+	for i := 0; i < len(x); i++ {
+		vpAssume(x[i] < 0x80) // characters = bytes here; multi-byte characters are in H_C05_length_bounds
+	}
 	ok, p, w, _ := c05Set(m, "s", val.String(x))
 	vpAssert(!p, "no crash")
 	vpAssert(ok == (len(x) >= 2 && len(x) <= 4), "length 2..4")
